@@ -747,7 +747,7 @@ func rule174(r *core.Run, lens map[int]bool) {
 
 // rule175 — backends do not apply naming rules of their own.
 func rule175(r *core.Run) {
-	r.Rule("R17.5", "no backend's CreateBucket rejects a name on syntactic grounds of its own (the decision is the shared validator's): a return of InvalidBucketName in a CreateBucket is admissible only under the comparison with the backend's internal bookkeeping name, and no CreateBucket tests len(name)")
+	r.Rule("R17.5", "no backend's CreateBucket rejects a name on syntactic grounds of its own (the decision is the shared validator's): a return of InvalidBucketName in a CreateBucket is admissible only as the shared validator's own verdict on that name or under the comparison with the backend's internal bookkeeping name, and no CreateBucket tests len(name)")
 	for _, impl := range backendImpls {
 		fn := implMethod(r, impl, "CreateBucket")
 		if fn == nil {
@@ -760,6 +760,18 @@ func rule175(r *core.Run) {
 				es := r.P.SliceOf(ev, core.SliceOpts{Depth: 2})
 				if !has(errCodes(es), "InvalidBucketName") {
 					continue
+				}
+				// the shared validator's own verdict on this very name is the common decision, not a private rule
+				if es1 := r.P.SliceOf(ev, core.SliceOpts{Depth: -1}); es1.HasCallTo("gofakes3.ValidateBucketName") {
+					shared := false
+					for c := range es1.Calls {
+						if r.P.CalleeName(c) == "gofakes3.ValidateBucketName" && c.Common().Args[0] == ssa.Value(np) {
+							shared = true
+						}
+					}
+					if shared {
+						continue
+					}
 				}
 				for _, g := range core.GuardsOf(ret) {
 					gs := r.P.SliceOf(g.If.Cond, core.SliceOpts{Depth: -1})
